@@ -633,6 +633,16 @@ class Interp:
                 return _BINOPS[op](a, b)
             except Exception as e:
                 raise PyRaise(e)
+        # a native stand-in object (its dunders are marked _pyvc_native) combined with a symbolic scalar
+        nm = self._DUNDER.get(op)
+        if nm:
+            for obj, other, meth in ((a, b, f"__{nm}__"), (b, a, f"__r{nm}__")):
+                if not isinstance(obj, Sym):
+                    f = getattr(type(obj), meth, None)
+                    if f is not None and getattr(f, "_pyvc_native", False):
+                        r = f(obj, other)
+                        if r is not NotImplemented:
+                            return r
         return sym_binop(self, op, a, b)
 
     def compare(self, op, a, b):
@@ -672,8 +682,14 @@ class Interp:
     def contains(self, container, item):
         if isinstance(container, SSet):
             if isinstance(item, SObj):
+                pin_identity(self, item)
                 return wrap(z3.IsMember(item.ref, container.t))
-            return wrap(z3.IsMember(term(item), container.t))
+            it = term(item)
+            if it.sort() != container.t.sort().domain():
+                if not is_sym(item):
+                    return False  # a concrete value of another type equals no element of the set
+                raise Undecided("membership test between different element sorts")
+            return wrap(z3.IsMember(it, container.t))
         if isinstance(container, SStr) or (isinstance(container, str) and isinstance(item, SStr)):
             return wrap(z3.Contains(term(container), term(item)))
         if isinstance(container, (list, tuple, set, frozenset, dict)) or isinstance(container, type({}.keys())):
@@ -1724,6 +1740,15 @@ def int_to_str(t):
 # symbolic operators
 # ---------------------------------------------------------------------------------------------
 
+def pin_identity(interp, obj):
+    """Distinct SObj wrappers are distinct heap objects: give the z3 constant of one that enters a formula its
+    serial number under the injective ObjId, so two different wrappers can never be equated by the solver."""
+    from .values import Obj
+    if getattr(obj, "cands", None) is None or obj.pycls is not None:
+        f = z3.Function("ObjId", Obj, z3.IntSort())
+        interp.ctx.assume(f(obj.ref) == obj.serial)
+
+
 def make_set(interp, items, elem=None):
     if not items:
         raise EngineError("make_set of nothing needs an element sort")
@@ -1732,6 +1757,7 @@ def make_set(interp, items, elem=None):
         from .values import Obj
         t = z3.EmptySet(Obj)
         for x in items:
+            pin_identity(interp, x)
             t = z3.SetAdd(t, x.ref)
         return SSet(t, "obj")
     sort = term(first).sort()
